@@ -45,6 +45,7 @@ def single_node(c, name):
 
 
 class _Conn(Harness):
+    xcheck = 2
     module = "puan.logic.plog"
     goal = None          # name of the single obligation
     connective = None    # python spec: list of child truth values (and k) -> 0/1
